@@ -12,7 +12,7 @@ external c_fileset_partition : nativeint -> int -> nativeint * nativeint = "vp_f
 external c_source_write : nativeint -> nativeint -> bool = "vp_source_write"
 
 let engine = "lk"
-let rule = "scenarios (parameters drawn per case): writers (pooled or not, refused adds, zero-thread pool), readers of tables and of non-table files, iterators of every kind abandoned before they are drained, mergers over several readers with undrained iterators, sorters with 1..n chunks (pooled or not) destroyed before iteration / after iteration / while chunk jobs are in flight / after a failing merge callback / after sorter_write into a writer that refuses the first key, filesets with dups, reloads and undrained iterators, thread pools shared by several users. Observed after every step: descriptors, mappings, temp files, threads; at the end: heap growth over repeated runs. Non-trivial: every scenario; distinct by (scenario, parameters)."
+let rule = "scenarios (parameters drawn per case): writers (pooled or not, refused adds, zero-thread pool), readers of tables and of non-table files, iterators of every kind abandoned before they are drained, mergers over several readers with undrained iterators, sorters with 1..n chunks (pooled or not) destroyed before iteration / after iteration / while chunk jobs are in flight / after a failing merge callback / after sorter_write into a writer that refuses the first key, filesets with dups, reloads and undrained iterators, thread pools shared by several users, sorters on a pool object of zero threads, mergers whose merge function returns values of length 0. Observed after every step: descriptors, mappings, temp files, threads; at the end: heap growth over repeated runs. Non-trivial: every scenario; distinct by (scenario, parameters)."
 
 let count_dir d = try Array.length (Sys.readdir d) with _ -> 0
 let fd_count () = count_dir "/proc/self/fd" - 1
@@ -152,15 +152,26 @@ let sc_reader c =
   Rd.c_reader_destroy r; destroy c rid; rop c (RReaderDestroy (mid rid));
   observe c "reader_destroy" ~threads_exact:true
 
+(* a table whose values are empty for most keys (a merge function that concatenates then yields empty merged values) *)
+let mk_table_empty_values c name n =
+  let path = Filename.concat c.dir name in
+  (try Sys.remove path with _ -> ());
+  let fd = Wr.c_open_rw path true in
+  let w = Wr.c_writer_init_fd fd (rint c.st 4, false, 0, true, 1024, false, 0, 0n) in
+  for i = 0 to n - 1 do ignore (Wr.c_writer_add w (Printf.sprintf "k%04d" i) (if i mod 5 = 4 then "x" else "")) done;
+  Wr.c_writer_destroy w; Wr.c_close fd; path
+
 let sc_merger c =
   let n = rrange c.st 1 4 in
   c.rops_on <- true;
   let mid = n_of_int in
+  let empties = rint c.st 3 = 0 in      (* merged values of length 0: plain concatenation of empty values *)
+  let mk_table c name n = if empties then mk_table_empty_values c name n else mk_table c name n in
   let rs = List.init n (fun i -> let p = mk_table c (Printf.sprintf "m%d.mtbl" i) (rrange c.st 1 100) in
                          let r = Rd.c_reader_init p false false in
                          let id = create c (KReader true) in
                          rop c (RReaderInit (mid id, true, RdOk)); (r, id)) in
-  let mc = Mg.c_merge_clos_new 1 (if rint c.st 4 = 0 then rrange c.st 1 5 else 0) in
+  let mc = Mg.c_merge_clos_new (if empties then 2 else 1) (if rint c.st 4 = 0 then rrange c.st 1 5 else 0) in
   let m = Mg.c_merger_init mc 0 in
   let mgid = 3000 in
   rop c (RMergerInit (mid mgid));
@@ -181,7 +192,7 @@ let sc_merger c =
 
 let sc_sorter c =
   let pooled = rbool c.st in
-  let nthreads = if pooled then rrange c.st 1 4 else 0 in
+  let nthreads = if pooled then rrange c.st 0 4 else 0 in      (* a pool object with zero threads: the sorter still has its handler thread *)
   let pool = if pooled then Wr.c_pool_init nthreads else 0n in
   let pid = if pooled then Some (create c (KPool (n_of_int nthreads))) else None in
   let fail_at = if rint c.st 5 = 0 then rrange c.st 1 6 else 0 in
@@ -472,7 +483,42 @@ let sc_seeks c =
   So.c_sorter_destroy s; destroy c sid; Mg.c_merge_clos_free mc; rop c (RSorterDestroy (mid sid));
   observe c "sorter_destroy" ~threads_exact:true
 
-let scenarios = [| ("writer", sc_writer); ("reader", sc_reader); ("merger", sc_merger); ("sorter", sc_sorter); ("fileset", sc_fileset); ("sorter_final_flush_fails", sc_sorter_final_flush_fails); ("sorter_write_refused", sc_sorter_write_refused); ("fileset_long", sc_fileset_long); ("writer_path", sc_writer_path); ("fileset_kinds", sc_fileset_kinds); ("seeks", sc_seeks) |]
+(* a sorter configured with a pool OBJECT of zero threads (it still starts its result-handler thread), destroyed at
+   once / after adds / after iteration: the handler thread must be gone after mtbl_sorter_destroy *)
+let sc_sorter_zero_pool c =
+  let pool = Wr.c_pool_init 0 in
+  let pid = create c (KPool N0) in
+  let mc = Mg.c_merge_clos_new 1 0 in
+  let s = So.c_sorter_init (if rbool c.st then 1 else 100000000) c.spill mc pool in
+  let sid = create c (KSorter (true, N0)) in
+  observe c "sorter_init(pool of zero threads)" ~threads_exact:true;
+  let mode = rint c.st 3 in
+  if mode >= 1 then for i = 0 to rrange c.st 1 30 do ignore (So.c_sorter_add s (Printf.sprintf "k%02d" (rint c.st 9)) (Printf.sprintf "v%d" i)) done;
+  if mode = 2 then (let it = So.c_sorter_iter s in for _ = 1 to rint c.st 12 do ignore (Rd.c_iter_next it) done; if it <> 0n then Rd.c_iter_destroy it);
+  So.c_sorter_destroy s; destroy c sid; Mg.c_merge_clos_free mc;
+  observe c "sorter_destroy" ~threads_exact:true;
+  Wr.c_pool_destroy pool; destroy c pid;
+  observe c "pool_destroy" ~threads_exact:true
+
+(* mergers whose merge function returns a value of length 0 for most keys (the concatenation of empty values), drained
+   completely: every buffer the callback returns must be released *)
+let sc_merger_empty_values c =
+  let n = rrange c.st 2 4 in
+  let rs = List.init n (fun i -> let p = mk_table_empty_values c (Printf.sprintf "me%d.mtbl" i) (rrange c.st 40 120) in
+                         let r = Rd.c_reader_init p false false in
+                         let id = create c (KReader true) in (r, id)) in
+  let mc = Mg.c_merge_clos_new 2 0 in
+  let m = Mg.c_merger_init mc 0 in
+  List.iter (fun (r, _) -> Mg.c_merger_add_source m (Rd.c_reader_source r)) rs;
+  let it = Rd.c_source_iter (Mg.c_merger_source m) in
+  let continue = ref true in
+  while !continue do (match Rd.c_iter_next it with Some _ -> () | None -> continue := false) done;
+  observe c "merger drained (empty merged values)" ~threads_exact:true;
+  Rd.c_iter_destroy it; Mg.c_merger_destroy m; Mg.c_merge_clos_free mc;
+  List.iter (fun (r, id) -> Rd.c_reader_destroy r; destroy c id) rs;
+  observe c "merger_destroy" ~threads_exact:true
+
+let scenarios = [| ("writer", sc_writer); ("reader", sc_reader); ("merger", sc_merger); ("sorter", sc_sorter); ("fileset", sc_fileset); ("sorter_final_flush_fails", sc_sorter_final_flush_fails); ("sorter_write_refused", sc_sorter_write_refused); ("fileset_long", sc_fileset_long); ("writer_path", sc_writer_path); ("fileset_kinds", sc_fileset_kinds); ("seeks", sc_seeks); ("sorter_zero_pool", sc_sorter_zero_pool); ("merger_empty_values", sc_merger_empty_values) |]
 
 let run_scenario (name : string) (f : ctx -> unit) ~seed ~index : child_end =
   in_child (fun () ->
@@ -496,7 +542,7 @@ let run_scenario (name : string) (f : ctx -> unit) ~seed ~index : child_end =
 let run ~tier ~seed ~only acc =
   let idx = ref 0 in
   let want () = cur_index := !idx; (match only with None -> true | Some i -> i = !idx) in
-  let n = if tier = "thorough" then 1500 else 132 in
+  let n = if tier = "thorough" then 1500 else 143 in
   for i = 0 to n - 1 do
     if want () then begin
       let (name, f) = scenarios.(i mod Array.length scenarios) in
